@@ -36,9 +36,10 @@ ABSENT = type("Absent", (), {"__repr__": lambda self: "<absent>"})()
 
 
 class GeneratedCodeBroken(Exception):
-    def __init__(self, what, exc):
+    def __init__(self, what, exc, clause="pyobj.import"):
         super().__init__(what)
         self.exc = exc
+        self.sig = "C18|%s|%s" % (clause, exc)
 
 
 class Foreign:
@@ -86,7 +87,8 @@ class Comp:
         for f in model.fields_except_padding:
             py = f.name if isinstance(getattr(cls, f.name, None), property) else f.name + "_"
             if not isinstance(getattr(cls, py, None), property):
-                raise MachineryFailure("cannot find the property of field %s in %s" % (f.name, cls))
+                raise GeneratedCodeBroken("class %s has no property for field '%s' of its source model %s" % (cls.__qualname__, f.name, model),
+                                          "missing-field", "pyobj.model.fields")
             self.fields.append((py, f.name, descr(f.data_type)))
 
 
@@ -150,7 +152,7 @@ class Pkg:
                             self.comps[str(mm)] = Comp(mm, getattr(cls, half), m)
                     else:
                         self.comps[str(m)] = Comp(m, cls, m)
-            except MachineryFailure:
+            except (MachineryFailure, GeneratedCodeBroken):
                 raise
             except Exception as ex:  # noqa  the generated package itself raises while being imported
                 raise GeneratedCodeBroken("importing the generated package %s raised %s: %s" % (ns, type(ex).__name__, ex), type(ex).__name__)
@@ -1260,72 +1262,90 @@ def recs_by_id(recs, rid):
 
 # ------------------------------------------------------------------------------------------------------------------------------
 def selftests(ctx, pkg, hists, recs, rejected):
+    def unavailable(name):
+        """a self-test needs an execution on which the property holds; on a tree that violates the property everywhere the
+        self-test would use, it is skipped (the run already reports violations); on a clean tree that is a machinery failure"""
+        if not ctx.violations:
+            raise MachineryFailure("self-test '%s': no suitable execution found" % name)
+        ctx.cov["binding_selftests"].append({"name": name, "skipped": "no execution without a violation available on this tree"})
+
     # (1) spec -> code: perturb one expected outcome of an emitted history, the driver must report the mismatch
-    kinds = KVEC[1]
-    comp = pkg.comps["%s.S1v2.1.0" % pkg.ns]
     done = 0
-    for h in hists[(1, False)]:
-        if len(h) >= 2 and h[0]["out"] == "stored" and h[1]["op"] == "assign" and h[1]["c"] == "above" and h[1]["pa"] == ["verr"]:
-            actions = [{k: st[k] for k in ("op", "kw", "f", "c") if k in st} for st in h]
-            good = compatible(hists[(1, False)], actions)
-            f0, _, sk = run_history(pkg.comps, pkg.ns, comp, kinds, build_trie(good), actions, 0)
-            if sk:
+    for (ks, union), hl in sorted(hists.items()):
+        kinds = KVEC[ks]
+        comp = pkg.comps["%s.%s%dv2.1.0" % (pkg.ns, "U" if union else "S", ks)]
+        tried = 0
+        for h in hl:
+            if not (len(h) >= 2 and h[0]["out"] == "stored" and h[1]["op"] == "assign" and h[1]["pa"] == ["verr"]):
                 continue
-            if f0 is not None:
-                continue  # this very history already fails on the tree under test: take another one for the self-test
+            tried += 1
+            if tried > 400:
+                break
+            actions = [{k: st[k] for k in ("op", "kw", "f", "c") if k in st} for st in h]
+            good = compatible(hl, actions)
+            f0, n0, sk = run_history(pkg.comps, pkg.ns, comp, kinds, build_trie(good), actions, 0)
+            if sk or f0 is not None or n0 < 2:
+                continue  # not applicable to this class / fails on the tree under test / the real code took another branch
             bad = json.loads(json.dumps(good))
             for v in bad:
                 if len(v) >= 2:
                     v[1]["pa"] = ["stored"]
                     v[1]["out"] = "stored"
             f, _, _ = run_history(pkg.comps, pkg.ns, comp, kinds, build_trie(bad), actions, 0)
-            ctx.selftest("perturbed expected outcome (max+1 -> stored) is reported by the replay driver",
+            ctx.selftest("perturbed expected outcome (out of range -> stored) is reported by the replay driver",
                          f is not None and f.kind == "violation" and f.clause == "pyobj.accept")
             bad2 = json.loads(json.dumps(good))
             for v in bad2:
-                v[0]["post"][0] = "None"  # the model would say: the first field is unset after construction
+                v[0]["post"][0] = "None" if v[0]["post"][0] != "None" else "default"  # a wrong prescribed state after construction
             f2, _, _ = run_history(pkg.comps, pkg.ns, comp, kinds, build_trie(bad2), actions, 0)
             ctx.selftest("perturbed expected post-state is reported by the replay driver", f2 is not None and f2.kind == "violation")
             done = 1
             break
+        if done:
+            break
     if not done:
-        raise MachineryFailure("self-test: no suitable emitted history found")
+        unavailable("perturbed expected outcome is reported by the replay driver")
 
     # (2) code -> spec: corrupt one recorded field, the T-layer must reject exactly that record
     def first(pred):
         for r in recs:
             if r["id"] not in rejected and pred(r):  # only records the T-layer accepted are corrupted
                 return json.loads(json.dumps(r))
-        raise MachineryFailure("self-test: no suitable recorded event found")
+        return None
 
     bad = []
-    r = first(lambda r: r["ev"] == "assign" and r["out"] == "verr" and r["x"]["c"] == "int")
-    r.update(id=0, out="stored")
-    bad.append((r, "pyobj.reject"))
-    r = first(lambda r: r["ev"] == "assign" and r["out"] == "verr" and not r["union"] and len(r["ft"]) > 1)
-    r.update(id=1, post=[r["post"][-1]] + r["post"][:-1] if r["post"][0] != r["post"][-1] else [{"c": "none"}] + r["post"][1:])
-    bad.append((r, "pyobj.state_kept"))
-    r = first(lambda r: r["ev"] == "assign" and r["union"] and r["out"] == "stored" and len(r["ft"]) > 1)
-    other = 0 if r["f"] != 1 else 1
-    r["post"][other] = r["post"][r["f"] - 1]
-    r.update(id=2)
-    bad.append((r, "pyobj.union_one"))
-    r = first(lambda r: r["ev"] == "rt" and r["erra"] == "none" and len(r["b"]) > 0)
-    r.update(id=3, b=[r["b"][0] ^ 1] + r["b"][1:])
-    bad.append((r, "pyobj.builtin_rt"))
-    r = first(lambda r: r["ev"] == "model")
-    r["emb"] = dict(r["emb"], extent=r["emb"]["extent"] + 8)
-    r.update(id=4)
-    bad.append((r, "pyobj.model.extent"))
-    r = first(lambda r: r["ev"] == "model" and r["src"]["fields"])
-    r["emb"] = dict(r["emb"], fields=r["emb"]["fields"][:-1] + [r["emb"]["fields"][-1] + [33]])
-    r.update(id=5)
-    bad.append((r, "pyobj.model.fields"))
-    r = first(lambda r: r["ev"] == "assign" and r["out"] == "stored" and r["x"]["c"] == "int" and not r["union"]
-              and r["ft"][r["f"] - 1]["k"] in ("uint", "int"))
-    r["post"][r["f"] - 1] = enc_int(1 if r["x"]["bits"] == [] else 0)
-    r.update(id=6)
-    bad.append((r, "pyobj.stored"))
+    plan = []
+    def corrupt(clause, pred, fn):
+        r = first(pred)
+        if r is None:
+            unavailable("corrupted record is rejected by PyObjectTrace with " + clause)
+            return
+        fn(r)
+        r["id"] = len(bad)
+        bad.append((r, clause))
+
+    corrupt("pyobj.reject", lambda r: r["ev"] == "assign" and r["out"] == "verr" and r["x"]["c"] == "int"
+            and r["ft"][r["f"] - 1]["k"] in ("uint", "int"), lambda r: r.update(out="stored"))
+    corrupt("pyobj.state_kept", lambda r: r["ev"] == "assign" and r["out"] == "verr" and not r["union"] and len(r["ft"]) > 1,
+            lambda r: r.update(post=[r["post"][-1]] + r["post"][:-1] if r["post"][0] != r["post"][-1] else [{"c": "none"}] + r["post"][1:]))
+
+    def two_options(r):
+        r["post"][0 if r["f"] != 1 else 1] = r["post"][r["f"] - 1]
+
+    corrupt("pyobj.union_one", lambda r: r["ev"] == "assign" and r["union"] and r["out"] == "stored" and len(r["ft"]) > 1, two_options)
+    corrupt("pyobj.builtin_rt", lambda r: r["ev"] == "rt" and r["erra"] == "none" and r["errb"] == "none" and len(r["b"]) > 0,
+            lambda r: r.update(b=[r["b"][0] ^ 1] + r["b"][1:]))
+    corrupt("pyobj.model.extent", lambda r: r["ev"] == "model", lambda r: r.update(emb=dict(r["emb"], extent=r["emb"]["extent"] + 8)))
+    corrupt("pyobj.model.fields", lambda r: r["ev"] == "model" and r["src"]["fields"],
+            lambda r: r.update(emb=dict(r["emb"], fields=r["emb"]["fields"][:-1] + [r["emb"]["fields"][-1] + [33]])))
+
+    def other_value(r):
+        r["post"][r["f"] - 1] = enc_int(1 if r["x"]["bits"] == [] else 0)
+
+    corrupt("pyobj.stored", lambda r: r["ev"] == "assign" and r["out"] == "stored" and r["x"]["c"] == "int" and not r["union"]
+            and r["ft"][r["f"] - 1]["k"] in ("uint", "int"), other_value)
+    if not bad:
+        return
     before = ctx.cov["traces_validated_against_impl"]
     rej = tlc.validate_traces(ctx, "PyObjectTrace", [b for b, _ in bad])
     ctx.cov["traces_validated_against_impl"] = before
@@ -1379,7 +1399,7 @@ def part_code_to_spec(ctx, pkg_a):
     try:
         pkgs.append(Pkg(ctx, "c18s", {k: v.replace("{ns}", "c18s") for k, v in special_files().items()}))
     except GeneratedCodeBroken as ex:
-        ctx.violation("C18|pyobj.import|" + ex.exc, str(ex), {"dir": "code->spec", "seed": ctx.seed, "tier": ctx.tier, "files": special_files()})
+        ctx.violation(ex.sig, str(ex), {"dir": "code->spec", "seed": ctx.seed, "tier": ctx.tier, "files": special_files()})
     ntypes = ctx.pick(60, 140)
     for i in range(ctx.pick(2, 8)):
         ns = "c18r%d" % i
@@ -1387,7 +1407,7 @@ def part_code_to_spec(ctx, pkg_a):
         try:
             pkgs.append(Pkg(ctx, ns, files))
         except GeneratedCodeBroken as ex:
-            ctx.violation("C18|pyobj.import|" + ex.exc, str(ex), {"dir": "code->spec", "seed": ctx.seed, "tier": ctx.tier, "files": files})
+            ctx.violation(ex.sig, str(ex), {"dir": "code->spec", "seed": ctx.seed, "tier": ctx.tier, "files": files})
     for p in pkgs:
         model_events(ctx, p, recs, meta)
     for p in pkgs[1:]:
@@ -1409,7 +1429,7 @@ def run(ctx):
     try:
         pkg_a = Pkg(ctx, "c18a", abstract_files("c18a"))
     except GeneratedCodeBroken as ex:  # no class can honour its contract
-        ctx.violation("C18|pyobj.import|" + ex.exc, str(ex), {"dir": "spec->code", "files": "abstract_files"})
+        ctx.violation(ex.sig, str(ex), {"dir": "spec->code", "files": "abstract_files"})
         ctx.not_exercised("everything after the import of the generated package")
         return
     groups = part_spec_to_code(ctx, pkg_a)
@@ -1438,7 +1458,7 @@ def replay(ctx, case):
             Pkg(ctx, "c18x", abstract_files("c18x") if case["files"] == "abstract_files" else
                 {k: v.replace("{ns}", "c18x").replace("c18s", "c18x") for k, v in case["files"].items()})
         except GeneratedCodeBroken as ex:
-            ctx.violation("C18|pyobj.import|" + ex.exc, str(ex), case)
+            ctx.violation(ex.sig, str(ex), case)
         return
     if case.get("dir") == "spec->code":
         pkg = Pkg(ctx, "c18a", abstract_files("c18a"))
